@@ -62,6 +62,7 @@ func init() {
 			{ID: "C01-R34", Title: "assignment targets are evaluated before the value", Floor: 3, Run: assignmentTargetsAreEvaluatedBeforeTheValue},
 			{ID: "C01-R35", Title: "iterators read the container at every step (shared with C16-R31)", Floor: 5, Run: iteratorsReadTheContainerAtEveryStep},
 			{ID: "C01-R36", Title: "every symbol has a slot of its own", Floor: 1, Run: everySymbolHasASlotOfItsOwn},
+			{ID: "C01-R37", Title: "derived operands are derived last (shared with C16-R32)", Floor: 1, Run: derivedOperandsAreDerivedLast},
 		},
 	})
 }
